@@ -560,6 +560,7 @@ func runC08(c *Ctx) {
 
 func runC06(c *Ctx) {
 	parentCacheStopped(c, "C06")
+	closeWithBacklog(c)
 	equalRefilterRace(c, "C06")
 	n := 30
 	if !c.Quick() {
@@ -1270,4 +1271,99 @@ func equalRefilterRace(c *Ctx, pid string) {
 			c.DistinctCase(fmt.Sprint("equal-refilter-race-", n))
 		}
 	}
+}
+
+// closeWithBacklog: a filtered subscription whose filter is slow (virtual
+// time) is closed while twenty events published before the close still sit in
+// the subscription it reads from.  They were published while it was
+// subscribed, its own backlog is far below the buffer: it hands on all twenty
+// before its Events() closes — like the plain subscriber next to it.
+func closeWithBacklog(c *Ctx) {
+	what := "a filtered subscription with a slow filter closed while 20 events published before the close are still buffered in front of it"
+	c.Now(what)
+	const n = 20
+	var got, plainGot int
+	var closed bool
+	var problems []string
+	dl := sched.Bubble(c.T, func() {
+		srv := fakeapi.New()
+		srv.Set(1, 1, labSets[1], 1)
+		ct := newCtlWith(srv, c.Seed, 0, 1000000*time.Second, nil)
+		defer func() {
+			ct.c.Close()
+			sched.Settle()
+		}()
+		sched.Settle()
+		var slow atomic.Bool
+		fs, err := ct.c.SubscribeWithFilter(filter.FN(func(metav1.Object) bool {
+			if slow.Load() {
+				time.Sleep(10 * time.Millisecond)
+			}
+			return true
+		}))
+		plain, err2 := ct.c.Subscribe()
+		if err != nil || err2 != nil {
+			problems = append(problems, "subscribe failed")
+			return
+		}
+		sched.Settle()
+		if !isClosed(fs.Ready()) {
+			problems = append(problems, "not ready")
+			return
+		}
+		slow.Store(true)
+		for i := 0; i < n; i++ {
+			srv.Set(2, 1+i, labSets[1], 1)
+		}
+		sched.Settle() // published to both; the filtered node is asleep in its filter on the first one
+		fs.Close()
+		time.Sleep(5 * time.Second)
+		sched.Settle()
+	drain:
+		for {
+			select {
+			case _, ok := <-fs.Events():
+				if !ok {
+					closed = true
+					break drain
+				}
+				got++
+			default:
+				break drain
+			}
+		}
+	drainPlain:
+		for {
+			select {
+			case _, ok := <-plain.Events():
+				if !ok {
+					break drainPlain
+				}
+				plainGot++
+			default:
+				break drainPlain
+			}
+		}
+	})
+	c.Rep.Evaluations++
+	replay := map[string]interface{}{"scenario": what, "published": n, "received_by_the_filtered_subscription": got, "received_by_a_plain_subscriber": plainGot, "events_closed": closed}
+	if dl != "" {
+		replay["deadlock"] = dl
+		c.Violation("", "hang (bubble deadlock): "+what, replay)
+		return
+	}
+	for _, p := range problems {
+		c.Violation("", p+" ["+what+"]", replay)
+	}
+	if len(problems) == 0 {
+		if plainGot != n {
+			c.Violation("", fmt.Sprintf("harness: the plain subscriber received %d of %d events [%s]", plainGot, n, what), replay)
+		} else if got != n {
+			c.Violation("", fmt.Sprintf("the filtered subscription handed on %d of the %d events published before it was closed (a plain subscriber next to it received them all) [%s]", got, n, what), replay)
+		}
+		if !closed {
+			c.Violation("", "Events() of a closed filtered subscription is not closed 5 s after Close ["+what+"]", replay)
+		}
+	}
+	c.DistinctCase("close-with-backlog")
 }
